@@ -15,6 +15,8 @@ type C13Case struct {
 	Values   [][2]string `json:"values"` // placeholder variable -> value on the focus node
 	ListVals []string    `json:"listvals"`
 	Kind     string      `json:"kind"` // in | containsAll | containsSome
+	// set when an embedded-Rego alternative of the same failure branch defines the message itself ($message)
+	CustomMessage string `json:"customMessage,omitempty"`
 	Profile  string      `json:"profile"`
 	Data     string      `json:"data"`
 }
@@ -89,6 +91,19 @@ func genC13(g *G, n int, out io.Writer) {
 			w.line(3, "- rego: |")
 			w.line(5, "c13_never = 3")
 			w.line(5, "$result = (c13_never == 4)")
+			if g.coin(0.4) {
+				// one alternative words the message itself; wherever it stands among the alternatives, its text is the message
+				c.CustomMessage = "worded by the rule"
+				line := "- rego: \"$message = \\\"worded by the rule\\\"; $result = (2 == 3)\""
+				txt := w.b.String()
+				if g.coin(0.5) {
+					txt = strings.Replace(txt, "    or:\n", "    or:\n      "+line+"\n", 1)
+					w.b.Reset()
+					w.b.WriteString(txt)
+				} else {
+					w.line(3, line)
+				}
+			}
 		} else {
 			w.line(2, "propertyConstraints:")
 			w.line(3, "ex.p0:")
